@@ -44,7 +44,7 @@ pub fn run(tape: &[u8], ctx: &mut Ctx) {
 			for op in &h.ops {
 				if let Err(e) = apply_op(&mut w, &h, op, &mut accepted) {
 					ctx.violation("C06/write-failed", format!("schema {} {outline}: {e}", h.case.json));
-					std::mem::forget(w);
+					discard(w);
 					return;
 				}
 			}
